@@ -364,6 +364,7 @@ CHECKS["C02"] = dict(
         dict(name="directed", test="TestDirected", kind="rapid", checks={"quick": 150, "thorough": 3000}, shards=16, timeout={"quick": 900, "thorough": 3400}, shrinktime="60s", gomaxprocs=4, crash_is_violation=True),
         dict(name="directed-ask", test="TestDirectedAsk", kind="rapid", checks={"quick": 80, "thorough": 3000}, shards=16, timeout={"quick": 900, "thorough": 3400}, shrinktime="60s", gomaxprocs=4, crash_is_violation=True, records=["directed", "directed-ask"]),
         dict(name="directed-grid", test="TestDirectedGrid", kind="plain", shards=16, timeout={"quick": 900, "thorough": 1800}, gomaxprocs=4, crash_is_violation=True, records=["directed", "directed-grid"]),
+        dict(name="simultaneous", test="TestSimultaneous", kind="rapid", checks={"quick": 25, "thorough": 300}, shards=16, timeout={"quick": 900, "thorough": 3400}, shrinktime="30s", crash_is_violation=True, gomaxprocs=8),
         dict(name="chaos", test="TestChaos", kind="rapid", checks={"quick": 5, "thorough": 250}, shards=8, timeout={"quick": 900, "thorough": 3400}, shrinktime="30s", crash_is_violation=True),
         dict(name="stress", test="TestStress", kind="rapid", checks={"quick": 6, "thorough": 100}, shards=8, timeout={"quick": 900, "thorough": 3400}, shrinktime="30s", crash_is_violation=True),
     ],
